@@ -19,7 +19,6 @@ KNOWN_OPS = {
     ('cdna3', 'VOP2', 23): 'v_fmamk_f32 is computed as float32(src0*K) + src1 with two roundings; the CDNA3 manual prescribes a fused multiply-add',
     ('cdna3', 'VOP2', 24): 'v_fmaak_f32 is computed as float32(src0*src1) + K with two roundings; the CDNA3 manual prescribes a fused multiply-add',
     ('cdna3', 'VOP2', 59): 'v_fmac_f32 is computed as float32(src0*src1) + dst with two roundings; the CDNA3 manual prescribes a fused multiply-add',
-    ('cdna3', 'VOP1', 22): 'v_cvt_f64_u32 writes only the low dword of its binary64 result: amd/insts/decodetable.go gives the opcode DSTWidth 32, the high dword (sign, exponent) of the destination pair keeps its old content',
     ('cdna3', 'VOP3A', 459): 'v_fma_f32 is computed as float32(src0*src1) + src2 with two roundings; the manual prescribes a fused multiply-add',
 }
 HI64_TEXT = ('vcc_hi as the 32-bit shift amount of v_lshlrev_b64 / v_lshrrev_b64 / v_ashrrev_i64 is read as the whole 64-bit VCC (exec_hi: panic) '
@@ -74,8 +73,8 @@ def proved_rows():
     src = os.path.join(vlib.COQ, 'cases', 'C03_rows.v')
     os.makedirs(os.path.dirname(src), exist_ok=True)
     open(src, 'w').write('From Coq Require Import ZArith List.\nImport ListNotations.\nFrom VIsa Require Import IsaState ExecVThm ExecFThm ExecFThm64 ExecMThm.\nOpen Scope Z_scope.\nSet Printing Depth 100000.\nSet Printing Width 200.\n'
-                         'Definition G := Eval vm_compute in (proved_rows GCN3 ++ frows GCN3 ++ frows64 ++ mrows GCN3).\nPrint G.\n'
-                         'Definition C := Eval vm_compute in (proved_rows CDNA3 ++ frows CDNA3 ++ frows64 ++ mrows CDNA3).\nPrint C.\n')
+                         'Definition G := Eval vm_compute in (proved_rows GCN3 ++ frows GCN3 ++ frows64 GCN3 ++ mrows GCN3).\nPrint G.\n'
+                         'Definition C := Eval vm_compute in (proved_rows CDNA3 ++ frows CDNA3 ++ frows64 CDNA3 ++ mrows CDNA3).\nPrint C.\n')
     rc, log = vlib.run(['coqc'] + vlib.coq_q_args() + [os.path.relpath(src, vlib.COQ)], cwd=vlib.COQ, timeout=300)
     for ext in ('.v', '.vo', '.vok', '.vos', '.glob'):
         try:
